@@ -81,6 +81,45 @@ def hints_from_behaviour(beh, spawners):
     return hints
 
 
+def _explore_job(job):
+    """one program x one strategy, in a worker process; returns distinct traces"""
+    import sys
+
+    sys.stderr = open("/dev/null", "w")
+    kind, prog = job[0], job[1]
+    traces = {}
+    runs = 0
+    exhaustive = 0
+
+    def rec(res):
+        nonlocal runs
+        runs += 1
+        key = json.dumps(res["events"], sort_keys=True)
+        if key not in traces:
+            traces[key] = {"prog": prog, "decisions": res["decisions"], "events": res["events"]}
+
+    if kind == "dfs":
+        st = None
+        for res, st in explore.dfs(lambda ch: run_pool(prog, ch), job[2]):
+            rec(res)
+        exhaustive = 1 if st and st["exhaustive"] else 0
+    elif kind == "bounded":
+        st = None
+        for res, st in explore.bounded(lambda ch: run_pool(prog, ch, post_yields=True), job[2], job[3]):
+            rec(res)
+        exhaustive = 1 if st and st["exhaustive"] else 0
+    elif kind == "random":
+        for res in explore.randoms(lambda ch: run_pool(prog, ch, post_yields=job[4]), job[2], job[3]):
+            rec(res)
+    elif kind == "pct":
+        for res in explore.pct(lambda ch: run_pool(prog, ch, post_yields=job[4]), job[2], job[3]):
+            rec(res)
+    elif kind == "hints":
+        for res in explore.hinted(lambda ch: run_pool(prog, ch), job[2], job[3]):
+            rec(res)
+    return {"traces": traces, "runs": runs, "exhaustive": exhaustive}
+
+
 def run(ctx):
     rng = random.Random(ctx.seed + 9)
     # ---- M1: exhaustive TLC on the implementation-shaped model (fixed design), M2: the un-fixed design must fail
@@ -104,37 +143,23 @@ def run(ctx):
         base = cfg.replace("_unfixed", "")
         mutant_hints[base] = hints_from_behaviour(r.trace, PROG_OF_CFG[base]["spawners"])
         ctx.note(f"TLC mutant {cfg}: killed (lost task counterexample, {len(r.trace)} states)")
-    # ---- S1: the real WorkerPool under explored schedules
-    traces = {}  # events-json -> (program, decisions)
-    nruns = 0
-    exhaustive_programs = 0
-
-    def record(prog, res):
-        nonlocal nruns
-        nruns += 1
-        key = json.dumps(res["events"], sort_keys=True)
-        if key not in traces:
-            traces[key] = {"prog": prog, "decisions": res["decisions"], "events": res["events"]}
-
+    # ---- S1: the real WorkerPool under explored schedules (parallel worker processes)
     progs = programs(rng, ctx.quick)
-    budget_dfs = 60 if ctx.quick else 3000
-    budget_rand = 24 if ctx.quick else 400
-    for prog in progs:
-        runf = lambda ch, prog=prog: run_pool(prog, ch)  # noqa: E731
+    budget_dfs = 60 if ctx.quick else 2000
+    budget_rand = 40 if ctx.quick else 400
+    jobs = []
+    for pi, prog in enumerate(progs):
         small = len(prog["spawners"]) * prog["tasks_per"] <= 2 and len(prog["waiters"]) <= 1
-        st = None
-        for res, st in explore.dfs(runf, budget_dfs * (4 if small else 1)):
-            record(prog, res)
-        if st and st["exhaustive"]:
-            exhaustive_programs += 1
-        for res in explore.randoms(runf, budget_rand, ctx.seed + 1):
-            record(prog, res)
-        for res in explore.pct(runf, budget_rand // 2, ctx.seed + 2):
-            record(prog, res)
-    # post-yield schedules (yield also after set/put/release) on a subset
-    for prog in progs[:: 5 if ctx.quick else 1]:
-        for res in explore.randoms(lambda ch, prog=prog: run_pool(prog, ch, post_yields=True), budget_rand // 2, ctx.seed + 3):
-            record(prog, res)
+        jobs.append(("dfs", prog, budget_dfs * (4 if small else 1), False))
+        nthreads = len(prog["spawners"]) + len(prog["waiters"]) + int(prog["hasprimary"]) + int(prog["shutter"])
+        if nthreads <= (3 if ctx.quick else 4):
+            # every schedule with at most 2 preemptions (yield points before and after each sync operation)
+            jobs.append(("bounded", prog, 2, 2500 if ctx.quick else 60000))
+        else:
+            jobs.append(("bounded", prog, 1, 300 if ctx.quick else 30000))
+        jobs.append(("random", prog, budget_rand, ctx.seed + 1 + pi, False))
+        jobs.append(("random", prog, budget_rand, ctx.seed + 3 + pi, True))   # also yield after set/put/release
+        jobs.append(("pct", prog, budget_rand // 2, ctx.seed + 2 + pi, True))
     # ---- M4: TLC-generated behaviours of the model as schedule hints (spec -> code)
     nhint = 0
     for cfg, prog in PROG_OF_CFG.items():
@@ -142,9 +167,19 @@ def run(ctx):
         hl = [hints_from_behaviour(b, prog["spawners"]) for b in behs]
         if cfg in mutant_hints:
             hl.append(mutant_hints[cfg])  # the lost-task schedule of the un-fixed design
-        for res in explore.hinted(lambda ch, prog=prog: run_pool(prog, ch), hl, ctx.seed):
-            record(prog, res)
-            nhint += 1
+        nhint += len(hl)
+        jobs.append(("hints", prog, hl, ctx.seed))
+    traces = {}
+    nruns = 0
+    exhaustive_programs = 0
+    import multiprocessing as mp
+
+    with mp.get_context("fork").Pool(14) as pool:
+        for out in pool.imap_unordered(_explore_job, jobs, chunksize=1):
+            nruns += out["runs"]
+            exhaustive_programs += out["exhaustive"]
+            for key, val in out["traces"].items():
+                traces.setdefault(key, val)
     # ---- M5: TLC judges every distinct trace
     items = list(traces.values())
     verdicts = batch.judge("PoolCases", [{"events": it["events"]} for it in items], ctx.scratch)
@@ -169,7 +204,8 @@ def run(ctx):
         "traces_validated_against_impl": len(items),
         "evaluations": nruns, "distinct_nontrivial": nontrivial,
         "rule": "runs of the real WorkerPool under the baton scheduler: per program DFS over sync-point schedules (budgeted), seeded random and PCT "
-                "schedules, post-yield schedules, and schedules hinted by TLC behaviours of spec/WorkerPool.tla incl. the un-fixed design's "
+                "schedules, post-yield schedules, preemption-bounded systematic search (all schedules with <= 2 preemptions for programs of <= 3 (quick) / 4 (thorough) threads, "
+                "<= 1 beyond; programs_explored_exhaustively counts the searches that finished), and schedules hinted by TLC behaviours of spec/WorkerPool.tla incl. the un-fixed design's "
                 "counterexample; distinct by observable event trace; non-trivial = a spawn returned after trigger_shutdown was called",
         "samples": [{"prog": items[0]["prog"], "events": items[0]["events"][:14]}] if items else [],
         "programs": len(progs), "programs_explored_exhaustively": exhaustive_programs,
